@@ -19,7 +19,7 @@ Proof. revert o. induction req as [|z req IH]; intros o; [reflexivity|]. cbn [fo
 Theorem seq_unchanged ops o : pseq (prun ops o) = pseq o.
 Proof.
   revert o. induction ops as [|op ops IH]; intros o; [reflexivity|]. unfold prun in *. cbn [fold_left].
-  rewrite IH. destruct op; [apply pseq_fold | reflexivity].
+  rewrite IH. destruct op; [apply pseq_fold | reflexivity | reflexivity].
 Qed.
 
 Lemma psites_fold req : forall o,
@@ -34,7 +34,7 @@ Qed.
 
 (* the requests that count: everything since the last clear *)
 Definition since_clear (pre : list Z) (ops : list pop) : list Z :=
-  fold_left (fun acc op => match op with PSet r => acc ++ r | PClear => [] end) ops pre.
+  fold_left (fun acc op => match op with PSet r => acc ++ r | PClear => [] | PQuery => acc end) ops pre.
 
 Lemma addnew_app acc a b : addnew acc (a ++ b) = addnew (addnew acc a) b.
 Proof. unfold addnew. apply fold_left_app. Qed.
@@ -44,10 +44,11 @@ Theorem sites_spec ops : forall o pre,
   psites (prun ops o) = addnew [] (map idx_of (filter (valid_site (pseq o)) (since_clear pre ops))).
 Proof.
   induction ops as [|op ops IH]; intros o pre H; [exact H|].
-  unfold prun, since_clear in *. cbn [fold_left]. destruct op as [req|].
+  unfold prun, since_clear in *. cbn [fold_left]. destruct op as [req| |].
   - rewrite (IH (pstep o (PSet req)) (pre ++ req)); cbn [pstep]; rewrite pseq_fold; [reflexivity|].
     rewrite psites_fold, H, filter_app, map_app, addnew_app. reflexivity.
   - apply (IH {| pseq := pseq o; psites := [] |} []). reflexivity.
+  - apply (IH o pre). exact H.
 Qed.
 
 Corollary sites_spec_fresh s ops :
